@@ -3,6 +3,7 @@ package simrt
 import (
 	"context"
 	"errors"
+	"fmt"
 	"time"
 	"unsafe"
 )
@@ -31,6 +32,70 @@ type simCtx struct {
 	// creation -> whoever observes the expiry (the runtime's timer does the same). The scheduler, which closes
 	// done, is not part of the program and passes nothing on.
 	syncVar byte
+	// afters: functions registered with context.AfterFunc (CtxAfterFunc) that have not run and were not stopped
+	afters []*ctxAfter
+}
+
+// ctxAfter is one registration of CtxAfterFunc.
+type ctxAfter struct {
+	f       func()
+	c       *simCtx
+	done    bool // started or stopped
+	syncVar byte
+}
+
+// CtxAfterFunc replaces context.AfterFunc: f runs in a task of its own once ctx is done (at once if it is already);
+// the returned function stops that, and reports whether it did.
+//
+//go:norace
+func CtxAfterFunc(ctx context.Context, f func()) (stop func() bool) {
+	t := me()
+	if t == nil {
+		return context.AfterFunc(ctx, f)
+	}
+	c, ok := ctx.(*simCtx)
+	if !ok {
+		if ctx.Done() != nil {
+			t.s.machineryFromTask("context.AfterFunc on a foreign cancellable context")
+		}
+		// never done: f never runs
+		return func() bool { return true }
+	}
+	af := &ctxAfter{c: c}
+	af.f = func() {
+		// registration and cancellation both happen before f
+		raceAcquire(unsafe.Pointer(&af.syncVar))
+		acquireCtx(c)
+		f()
+	}
+	raceReleaseMerge(unsafe.Pointer(&af.syncVar))
+	t.req = request{kind: opCtxAfter, ctx: c, keep: af}
+	t.call()
+	return func() bool { return ctxAfterStop(af) }
+}
+
+//go:norace
+func ctxAfterStop(af *ctxAfter) bool {
+	t := me()
+	if t == nil {
+		return false
+	}
+	t.req = request{kind: opCtxAfterStop, keep: af}
+	t.call()
+	return t.resp.idx == 1
+}
+
+// runAfters starts the functions registered on c (scheduler side; c is done).
+func (s *Sim) runAfters(c *simCtx) {
+	as := c.afters
+	c.afters = nil
+	for _, af := range as {
+		if !af.done {
+			af.done = true
+			s.afn++
+			s.startTask(s.newTask(fmt.Sprintf("ctxafterfunc#%d", s.afn), af.f))
+		}
+	}
 }
 
 //go:norace
@@ -176,6 +241,7 @@ func (s *Sim) cancelCtx(c *simCtx, err error) {
 	close(c.done)
 	s.closed[chanKey(c.done)] = c.done
 	s.dropTimer(c)
+	s.runAfters(c)
 	kids := c.children
 	c.children = nil
 	for _, ch := range kids {
